@@ -18,7 +18,7 @@ from xv import monitors
 
 PROPERTY = 'C17'
 LEVEL = 'exploration'
-RULE = ("directory trees of depth <= 3 built from names {a, b, c, pkg_x, mod_y, _p} where each name becomes a module, a "
+RULE = ("directory trees of depth <= 3 built from names {a, b, c, pkg_x, mod_y, _p, test__init__, run__main__, __init__x} where each name becomes a module, a "
         "regular package, a directory without __init__.py, both a module and a package, a module beside a plain directory of the same name, or a package with __main__.py; for "
         "every dotted name derivable from the tree (files, directories, intermediate names) plus absent names the "
         "resolution is compared with FileFinder; found paths go through modpath_to_modname, split_modpath and "
@@ -32,7 +32,7 @@ ASSUMPTIONS = [
     "top-level names carry a per-tree suffix so that sys.modules never aliases two trees",
 ]
 NSHARDS = {'quick': 16, 'thorough': 16}
-NAMES = ['a', 'b', 'c', 'pkg_x', 'mod_y', '_p']
+NAMES = ['a', 'b', 'c', 'pkg_x', 'mod_y', '_p', 'test__init__', 'run__main__', '__init__x']
 
 
 def required_cells(tier):
